@@ -184,6 +184,9 @@ func runBatch(spec batchSpec, tier string, batch uint64, deadline time.Time, onC
 	var mu sync.Mutex
 	var wg sync.WaitGroup
 	perRun := 300 * time.Second
+	if tier == "quick" {
+		perRun = 150 * time.Second
+	}
 	for w := 0; w < workers(); w++ {
 		wg.Add(1)
 		go func() {
@@ -194,7 +197,35 @@ func runBatch(spec batchSpec, tier string, batch uint64, deadline time.Time, onC
 					rs.Mode = fmt.Sprintf(rs.Mode, it.i)
 				}
 				res, stderr, err := spawnRun(rs, tier, it.seed, "", false, perRun)
+				var hangV *foundViolation
+				if err != nil && strings.Contains(err.Error(), "watchdog") {
+					// bounded liveness: a run that does not end is re-run twice in fresh processes with a
+					// shorter limit; reproduced every time => a hang of real code (zlint has no retry loop
+					// and a full lint takes ~1 ms), otherwise harness trouble
+					hung := 0
+					for k := 0; k < 2; k++ {
+						if _, _, e2 := spawnRun(rs, tier, it.seed, "", false, 90*time.Second); e2 != nil && strings.Contains(e2.Error(), "watchdog") {
+							hung++
+						}
+					}
+					if hung == 2 {
+						prop, class := "C01", "hang"
+						if rs.Engine == "sched" {
+							prop, class = "C10", "deadlock"
+						}
+						plan := &Plan{Engine: rs.Engine, Prop: rs.Prop, Seed: it.seed, Tier: tier, Knobs: map[string]any{"worker_mode": rs.Mode, "race_build": rs.Race, "gomaxprocs": rs.MaxProcs},
+							Note: "seed-only replay file: the run does not terminate; the plan is regenerated from the seed"}
+						hangV = &foundViolation{V: Violation{Property: prop, Class: class, Site: rs.Engine,
+							Detail: fmt.Sprintf("the run of seed %d did not finish within %v and again not within 90 s in two further fresh processes (a full lint takes about a millisecond)", it.seed, perRun)}, Plan: plan, Seed: it.seed, Spec: rs}
+					}
+				}
 				mu.Lock()
+				if hangV != nil {
+					agg.Violations = append(agg.Violations, *hangV)
+					agg.Runs++
+					mu.Unlock()
+					continue
+				}
 				if err != nil {
 					if onCrash != nil {
 						if fv := onCrash(rs, it.seed, stderr, err); fv != nil {
